@@ -84,29 +84,32 @@ Lemma strict_spellings : existsb (str_eqb (S"True")) ero_strict_true = true /\ e
 Proof. split; reflexivity. Qed.
 
 Theorem pi_roundtrip ero p : pinfo_wf ero p = true ->
-  exists s, pi_to_json p = Ok s /\ pi_from_json ero (Some s) = Ok (Some p).
+  exists s, pi_to_json p = Ok s /\ pi_from_json ero (Some s) = Ok (if pinfo_nothing p then None else Some p).
 Proof.
-  destruct p as [ty pl st]. unfold pinfo_wf. cbn [pi_type pi_payload pi_strict]. intro W.
+  destruct p as [ty pl st]. unfold pinfo_wf, pinfo_nothing. cbn [pi_type pi_payload pi_strict]. intro W.
   apply andb_true_iff in W as [W W3]. apply andb_true_iff in W as [W1 W2].
   destruct ty as [[|]|]; destruct pl as [j|a z]; try discriminate.
+  - (* Path-typed, set() not called: '' and absent *)
+    destruct j; try discriminate. exists []. split; reflexivity.
   - (* Path-typed, Path payload *)
     cbn [payload_wf] in W1. apply andb_true_iff in W1 as [Wa Wz].
     destruct ero, st as [b|]; try discriminate; eexists; (split; [reflexivity|]).
-    + destruct b; unfold pi_from_json; cbn [pi_type pi_payload pi_strict ptype_str app];
+    + destruct b; unfold pi_from_json; cbn [pi_type pi_payload pi_strict ptype_str app payload_unset];
         (match goal with |- context [jprint ?v] =>
            assert (J : jwfb v = true) by (cbn; rewrite Wa, Wz; reflexivity);
            change (Nat.eqb (List.length (jprint v)) 0) with false; cbv iota; rewrite (jparse_jprint v J) end);
         reflexivity.
-    + unfold pi_from_json; cbn [pi_type pi_payload pi_strict ptype_str app];
+    + unfold pi_from_json; cbn [pi_type pi_payload pi_strict ptype_str app payload_unset];
         (match goal with |- context [jprint ?v] =>
            assert (J : jwfb v = true) by (cbn; rewrite Wa, Wz; reflexivity);
            change (Nat.eqb (List.length (jprint v)) 0) with false; cbv iota; rewrite (jparse_jprint v J) end);
         reflexivity.
-  - (* Graph-typed, raw payload *)
+  - (* Graph-typed: a graph id, or nothing *)
     cbn [payload_wf] in W1.
-    destruct j; try discriminate;
-    destruct ero, st as [b|]; try discriminate; eexists; (split; [reflexivity|]);
-      try destruct b; unfold pi_from_json; cbn [pi_type pi_payload pi_strict ptype_str app];
+    destruct j; try discriminate.
+    + exists []. split; reflexivity.
+    + destruct ero, st as [b|]; try discriminate; eexists; (split; [reflexivity|]);
+      try destruct b; unfold pi_from_json; cbn [pi_type pi_payload pi_strict ptype_str app payload_unset];
         (match goal with |- context [jprint ?v] =>
            assert (J : jwfb v = true) by (cbn in W1 |- *; rewrite ?W1; reflexivity);
            change (Nat.eqb (List.length (jprint v)) 0) with false; cbv iota; rewrite (jparse_jprint v J) end);
@@ -117,7 +120,7 @@ Theorem pi_canonical ero p q s : pinfo_wf ero p = true -> pi_to_json p = Ok s ->
   pi_from_json ero (Some s) = Ok (Some q) -> pi_to_json q = Ok s.
 Proof.
   intros W E H. destruct (pi_roundtrip ero p W) as (s' & E1 & E2). rewrite E in E1. injection E1 as <-.
-  rewrite E2 in H. injection H as <-. exact E.
+  rewrite E2 in H. destruct (pinfo_nothing p); [discriminate|]. injection H as <-. exact E.
 Qed.
 
 (* forward compatibility: the decoder reads only type / payload / strict; any other key is ignored *)
@@ -134,16 +137,9 @@ Proof.
   intro H. induction d as [|[k0 v0] d IH]; simpl; [exact H|]. destruct (str_eqb k k0); [reflexivity|exact IH].
 Qed.
 
-(* FULL STATEMENT (refuted): every value built with the constructor and set() can be encoded.
-   PathInfo() / ERO() on which set() was never called cannot: to_json raises AttributeError. *)
-Lemma pi_unset_refuted : exists p, pinfo_unset p = true /\ pi_strict p = None /\ pi_to_json p = Err e_attr.
-Proof.
-  exists {| pi_type := Some PTPath; pi_payload := PLRaw JNull; pi_strict := None |}. repeat split.
-Qed.
-Lemma ero_unset_refuted : exists p, pinfo_unset p = true /\ pi_strict p = Some false /\ pi_to_json p = Err e_attr.
-Proof.
-  exists {| pi_type := Some PTPath; pi_payload := PLRaw JNull; pi_strict := Some false |}. repeat split.
-Qed.
+(* nothing set (set() never called) is encoded as empty text *)
+Lemma pi_unset_empty p : pinfo_nothing p = true -> pi_to_json p = Ok [].
+Proof. unfold pinfo_nothing, pi_to_json. intros ->. reflexivity. Qed.
 
 (* ------------------------------------------------------------------ MaintenanceInfo *)
 Lemma minfo_eta m : mi_lock m = true -> {| mi_nodes := mi_nodes m; mi_lock := true |} = m.
@@ -194,7 +190,6 @@ Section MaintProofs.
     destruct e as [st dl en]. unfold mentry_wf. cbn [me_deadline me_end]. intro W.
     apply andb_true_iff in W as [W1 W2].
     unfold mentry_of_jv, mentry_json. cbn [me_state me_deadline me_end].
-    change (negb (forallb _ _)) with false at 1. cbv iota.
     change (aget k_state _) with (Some (match st with Some s => JStr (mstate_str s) | None => JNull end)). cbv iota beta.
     change (aget k_deadline _) with (Some (jopt_str dl)).
     change (aget k_end _) with (Some (jopt_str en)).
@@ -264,13 +259,13 @@ Section MaintProofs.
   Qed.
 End MaintProofs.
 
-(* FULL forward-compatibility statement (refuted): an unknown field inside an entry is not tolerated *)
-Lemma maint_unknown_entry_field_refuted :
-  exists v extra, mentry_of_jv (fun _ => true) v = Ok {| me_state := Some MMaint; me_deadline := None; me_end := None |}
-    /\ mentry_of_jv (fun _ => true) (match v with JObj d => JObj (d ++ [extra]) | _ => v end) = Err e_type.
+(* forward compatibility inside an entry: only state / deadline / expected_end are read *)
+Theorem maint_entry_forward_compat VISO d d' :
+  (forall k, In k [k_state; k_deadline; k_end] -> aget k d' = aget k d) ->
+  mentry_of_jv VISO (JObj d') = mentry_of_jv VISO (JObj d).
 Proof.
-  exists (JObj [(k_state, JStr (S"Maint")); (k_deadline, JNull); (k_end, JNull)]), (S"reason", JStr (S"x")).
-  split; reflexivity.
+  intro H. unfold mentry_of_jv.
+  rewrite (H k_state), (H k_deadline), (H k_end) by (simpl; tauto). reflexivity.
 Qed.
 
 (* ------------------------------------------------------------------ typed tuples *)
